@@ -32,6 +32,10 @@ type Case struct {
 	A      []Step `json:"a"`
 	B      []Step `json:"b"`
 	Metric pbt.S  `json:"metric"`
+	// WithSan: the root has a sanitizer (printable ASCII and everything from U+00A0 up allowed);
+	// every input is first mapped through the reference sanitizer, so that all inputs are ones
+	// "the sanitizer leaves unchanged" and the registry's raw-key/sanitized-key paths are both used
+	WithSan bool `json:"withSan,omitempty"`
 }
 
 func str() *rapid.Generator[pbt.S] {
@@ -167,6 +171,7 @@ func gen(t *rapid.T) Case {
 	}
 	c.B = derive(t, "b", P2, E2)
 	c.Metric = str().Draw(t, "metric")
+	c.WithSan = rapid.IntRange(0, 2).Draw(t, "withSan") == 0
 	return c
 }
 
@@ -201,6 +206,30 @@ func run(c Case) (pbt.Outcome, error) {
 	var errs pbt.Errs
 	var out pbt.Outcome
 	opts := tally.ScopeOptions{OmitCardinalityMetrics: true}
+	if c.WithSan {
+		rs := []tally.SanitizeRange{{0x20, 0x7E}, {0xA0, 0x10FFFF}}
+		opts.SanitizeOptions = &tally.SanitizeOptions{
+			NameCharacters: tally.ValidCharacters{Ranges: rs}, KeyCharacters: tally.ValidCharacters{Ranges: rs},
+			ValueCharacters: tally.ValidCharacters{Ranges: rs}, ReplacementCharacter: '_',
+		}
+		ref := model.San{Ranges: [][2]rune{{0x20, 0x7E}, {0xA0, 0x10FFFF}}}
+		fix := func(x pbt.S) pbt.S { return pbt.S(ref.Sanitize(string(x), '_')) }
+		fixSteps := func(steps []Step) []Step {
+			out := make([]Step, len(steps))
+			for i, st := range steps {
+				out[i] = Step{Nil: st.Nil}
+				if st.Sub != nil {
+					v := fix(*st.Sub)
+					out[i].Sub = &v
+				}
+				for _, kv := range st.Tags {
+					out[i].Tags = append(out[i].Tags, KV{fix(kv.K), fix(kv.V)})
+				}
+			}
+			return out
+		}
+		c.A, c.B, c.Metric = fixSteps(c.A), fixSteps(c.B), fix(c.Metric)
+	}
 	var log *rec.Log
 	if c.Cached {
 		r := rec.NewCached()
@@ -304,6 +333,9 @@ func run(c Case) (pbt.Outcome, error) {
 	if hasDelim {
 		out.Classes = append(out.Classes, "has-delimiter")
 	}
+	if c.WithSan {
+		out.Classes = append(out.Classes, "sanitizer-configured")
+	}
 	if sameID {
 		out.Classes = append(out.Classes, "same-identity")
 	} else {
@@ -315,7 +347,7 @@ func run(c Case) (pbt.Outcome, error) {
 func TestScopes(t *testing.T) {
 	pbt.Main(t, pbt.Prop[Case]{
 		ID: "C05", Name: "scopes",
-		Rule: "rapid-generated PAIRS of derivation programs from one root (registry shard count 1..64 via the verif constructor shim; plain/cached): both derived from prefix parts P and effective tags E by permuting and regrouping the assignments into Tagged calls interleaved with the SubScope steps (plus overridden noise assignments, empty and nil maps); relation 'same' keeps (P,E), relation 'edit' applies exactly one edit (change/add/drop a prefix part, key, value or tag, or fold the next pair into a value with the key format's own delimiters). Alphabet rich in ',', '=', '+' and the empty string. Oracle: same identity => pointer-equal scopes and metrics (also when asked twice); different identity => different pointers and increments 3/5 arrive only under their own (name,tags). Pairs of different identities whose reference canonical key strings are byte-equal are the recorded delimiter ambiguity: excluded only while listed open. Every generated pair is non-trivial by construction (regrouped or one edit apart). Distinct: FNV-64 of the case JSON.",
+		Rule: "rapid-generated PAIRS of derivation programs from one root (registry shard count 1..64 via the verif constructor shim; plain/cached): both derived from prefix parts P and effective tags E by permuting and regrouping the assignments into Tagged calls interleaved with the SubScope steps (plus overridden noise assignments, empty and nil maps); relation 'same' keeps (P,E), relation 'edit' applies exactly one edit (change/add/drop a prefix part, key, value or tag, or fold the next pair into a value with the key format's own delimiters). Alphabet rich in ',', '=', '+' and the empty string; in a third of the cases the root has a sanitizer and all inputs are ones it leaves unchanged. Oracle: same identity => pointer-equal scopes and metrics (also when asked twice); different identity => different pointers and increments 3/5 arrive only under their own (name,tags). Pairs of different identities whose reference canonical key strings are byte-equal are the recorded delimiter ambiguity: excluded only while listed open. Every generated pair is non-trivial by construction (regrouped or one edit apart). Distinct: FNV-64 of the case JSON.",
 		Gen:  gen, Run: run,
 	})
 }
